@@ -159,22 +159,38 @@ impl fmt::Display for Expr {
                     if prec < op_prec {
                         write!(fmt, "(")?;
                     }
+                    // Only `^` is right-associative: everywhere else an operand of
+                    // the same level on the right needs its parentheses.
+                    let right_prec = if binop.op == BinOpType::Pow {
+                        op_prec
+                    } else {
+                        succ
+                    };
                     recurse(&binop.left, fmt, succ)?;
                     write!(fmt, "{}", binop.op.symbol())?;
-                    recurse(&binop.right, fmt, op_prec)?;
+                    recurse(&binop.right, fmt, right_prec)?;
                     if prec < op_prec {
                         write!(fmt, ")")?;
                     }
                     Ok(())
                 }
                 Expr::UnaryOp(ref unaryop) => match unaryop.op {
-                    UnaryOpType::Positive => {
-                        write!(fmt, "+")?;
-                        recurse(&unaryop.expr, fmt, Precedence::Plus)
-                    }
-                    UnaryOpType::Negative => {
-                        write!(fmt, "-")?;
-                        recurse(&unaryop.expr, fmt, Precedence::Plus)
+                    UnaryOpType::Positive | UnaryOpType::Negative => {
+                        // A sign in the base of a power or after another factor
+                        // would be read as a binary operator.
+                        if prec < Precedence::Plus {
+                            write!(fmt, "(")?;
+                        }
+                        if let UnaryOpType::Positive = unaryop.op {
+                            write!(fmt, "+")?;
+                        } else {
+                            write!(fmt, "-")?;
+                        }
+                        recurse(&unaryop.expr, fmt, Precedence::Plus)?;
+                        if prec < Precedence::Plus {
+                            write!(fmt, ")")?;
+                        }
+                        Ok(())
                     }
                     UnaryOpType::Degree(ref suffix) => {
                         if prec < Precedence::Mul {
@@ -197,7 +213,22 @@ impl fmt::Display for Expr {
                     }
                     for expr in exprs.iter().skip(1) {
                         write!(fmt, " ")?;
-                        recurse(expr, fmt, Precedence::Pow)?;
+                        let signed = matches!(
+                            *expr,
+                            Expr::UnaryOp(UnaryOpExpr {
+                                op: UnaryOpType::Positive | UnaryOpType::Negative,
+                                ..
+                            })
+                        );
+                        recurse(
+                            expr,
+                            fmt,
+                            if signed {
+                                Precedence::Term
+                            } else {
+                                Precedence::Pow
+                            },
+                        )?;
                     }
                     if prec < Precedence::Mul {
                         write!(fmt, ")")?;
@@ -223,7 +254,7 @@ impl fmt::Display for Expr {
                         write!(fmt, "(")?;
                     }
                     write!(fmt, "{} of ", property)?;
-                    recurse(expr, fmt, Precedence::Div)?;
+                    recurse(expr, fmt, Precedence::Mul)?;
                     if prec < Precedence::Add {
                         write!(fmt, ")")?;
                     }
